@@ -153,19 +153,25 @@ class CacheView(Table):
     def __iter__(self):
 
         # serve whatever is in the cache first
+        position = 0
         for row in self.cache:
+            position += 1
             yield row
 
         if not self.cachecomplete:
 
             # serve the remainder from the inner iterator
             it = iter(self.inner)
-            for row in islice(it, len(self.cache), None):
-                # maybe there's more room in the cache?
-                if not self.n or len(self.cache) < self.n:
+            for row in islice(it, position, None):
+                # maybe there's more room in the cache? (N.B., only append the
+                # row if another iterator has not already cached it)
+                if len(self.cache) == position and \
+                        (not self.n or len(self.cache) < self.n):
                     self.cache.append(row)
+                position += 1
                 yield row
 
             # does the cache contain a complete copy of the inner table?
-            if not self.n or len(self.cache) < self.n:
+            if len(self.cache) == position and \
+                    (not self.n or len(self.cache) < self.n):
                 self.cachecomplete = True
